@@ -7,7 +7,7 @@ import time
 import traceback
 from dataclasses import dataclass, field
 
-from .source import AnchorMissing
+from .source import AnchorMissing, GrammarBroken
 
 VERIF = os.path.dirname(os.path.dirname(os.path.dirname(os.path.abspath(__file__))))
 # When the analysed tree is not /repo (trial runs against a scratch worktree with a seeded change),
@@ -62,6 +62,8 @@ class Ctx:
         """Run one rule function; an AnchorMissing or an internal error becomes UNDECIDED."""
         try:
             return fn(self, *a, **k)
+        except GrammarBroken as e:
+            self.violation(rule, "grammar-loads", "src/decaylanguage/data", f"{e}: no input can be parsed with this grammar")
         except AnchorMissing as e:
             self.undecided(rule, "anchor", "-", f"anchor missing / vocabulary not understood: {e}")
         except Exception as e:  # analyser bug: never a silent pass, never a violation
